@@ -126,7 +126,10 @@ func prefixes(cols []string, sep string) []string {
 	return out
 }
 
-func encodeConsole(c *gen.Case, viaCore bool) ([]byte, string) {
+// encodeConsole encodes the case's entry. history > 0 first sends earlier entries through the
+// same encoder (1: one without call-site fields; 2: one without and one with fields): the
+// judged line must not depend on them.
+func encodeConsole(c *gen.Case, viaCore bool, history int) ([]byte, string) {
 	enc := zapcore.NewConsoleEncoder(c.Cfg.Zap())
 	fields := gen.ZapFields(c.Fields)
 	if viaCore {
@@ -135,6 +138,13 @@ func encodeConsole(c *gen.Case, viaCore bool) ([]byte, string) {
 		for _, w := range c.Ctx {
 			core = core.With(gen.ZapFields(w))
 		}
+		if history >= 1 {
+			_ = core.Write(c.Ent, nil)
+		}
+		if history >= 2 {
+			_ = core.Write(c.Ent, fields)
+		}
+		sink.Reset()
 		if err := core.Write(c.Ent, fields); err != nil {
 			return nil, "core.Write: " + err.Error()
 		}
@@ -150,6 +160,16 @@ func encodeConsole(c *gen.Case, viaCore bool) ([]byte, string) {
 			f.F.AddTo(clone)
 		}
 		enc = clone
+	}
+	if history >= 1 {
+		if b, err := enc.EncodeEntry(c.Ent, nil); err == nil {
+			b.Free()
+		}
+	}
+	if history >= 2 {
+		if b, err := enc.EncodeEntry(c.Ent, fields); err == nil {
+			b.Free()
+		}
 	}
 	buf, err := enc.EncodeEntry(c.Ent, fields)
 	if err != nil {
@@ -317,10 +337,11 @@ func Run(r *ev.Run) {
 			if i < 2 {
 				r.Sample(c.Describe())
 			}
+			r.SetAdd("earlier_entries_on_the_same_encoder", fmt.Sprint((i+pat)%3))
 			for _, via := range []bool{false, true} {
 				var line []byte
 				var problem string
-				if p := ev.Guard(func() { line, problem = encodeConsole(c, via) }); p != "" {
+				if p := ev.Guard(func() { line, problem = encodeConsole(c, via, (i+pat)%3) }); p != "" {
 					r.Violate(ev.Violation{Case: id, Class: "console-panic", Msg: "console encoder panicked: " + p, Witness: c.Describe()})
 					break
 				}
